@@ -8,7 +8,7 @@ import numpy as np
 from .. import gen, ref, snap
 from ..core import FAILED
 
-DECIDING = ["O1:unentangled=bruteforce", "O2:unent<=NPA", "O2:qlb<=NPA", "O2:NPA<=NS", "O3:hedging-duality", "O3:hedging-max>=min",
+DECIDING = ["O1:unentangled=bruteforce", "O2:unent<=NPA", "O2:qlb<=NPA", "O2:NPA<=NS", "O2:cglmp-anchor", "O3:hedging-duality", "O3:hedging-max>=min",
             "O3:hedging-closed-form", "O3:hedging-feasible-point", "O3:hedging-repetition", "O4:clone-duality", "O4:clone-closed-form",
             "O4:clone-repetition", "O4:clone-invariance", "O4:clone>=explicit-strategy"]
 RULE = ("extended games: referee dimension 2..3, answer/question counts 1..3 drawn independently, PSD predicate operators (real and complex) not symmetric "
@@ -29,6 +29,7 @@ CASE_TIMEOUT = {"quick": 900, "thorough": 2400}
 def cases(tier):
     out = [("unent", r) for r in range(80 if tier == "quick" else 4000)]
     out += [("ext", r) for r in range(14 if tier == "quick" else 150)]
+    out += [("cglmp", r) for r in range(3 if tier == "quick" else 6)]
     out += [("hedge", r) for r in range(16 if tier == "quick" else 300)]
     out += [("clone", r) for r in range(16 if tier == "quick" else 200)]
     return out
@@ -137,6 +138,64 @@ def _run_unent(ctx, spec, rng):
     before = snap.digest((game.prob_mat, game.pred_mat))
     _check_unent(ctx, game, prob, pred, (d, a, b, x, y, cplx), a != b or x != y or cplx)
     ctx.check("O5:game-unchanged", snap.digest((game.prob_mat, game.pred_mat)) == before, sig=("unent",), mech="extended-game:mutated", detail={"shape": list(pred.shape)})
+
+
+def cglmp3():
+    """CGLMP inequality for three outcomes as a game with predicate (c + 1) / 2 in {0, 1/2, 1} and uniform questions; its quantum (= commuting
+    operator) value is (I_3 + 4) / 8 with I_3 = 1 + sqrt(11 / 3) (Acin et al. 2002; Navascues-Pironio-Acin 2008), attained by an explicit strategy
+    on a partially entangled two-qutrit state, which is evaluated here with NumPy."""
+    dd = 3
+    coef = np.zeros((dd, dd, 2, 2))
+    for a, b in itertools.product(range(dd), repeat=2):
+        coef[a, b, 0, 0] += (a == b) - (a == (b - 1) % dd)
+        coef[a, b, 1, 1] += (a == b) - (a == (b - 1) % dd)
+        coef[a, b, 1, 0] += (b == (a + 1) % dd) - (b == a)
+        coef[a, b, 0, 1] += (b == a) - (b == (a - 1) % dd)
+    weights = (coef + 1) / 2
+    prob = np.ones((2, 2)) / 4
+    gamma = (np.sqrt(11) - np.sqrt(3)) / 2
+    psi = np.zeros(dd * dd, dtype=complex)
+    psi[0], psi[4], psi[8] = 1, gamma, 1
+    psi /= np.linalg.norm(psi)
+    om = np.exp(2j * np.pi / dd)
+
+    def bvec(k, shift, sign):
+        return np.array([om ** (j * (sign * k + shift)) for j in range(dd)]) / np.sqrt(dd)
+
+    best = 0.0
+    for al, be, sa, sb in itertools.product(((0, 0.5), (0.5, 0)), ((0.25, -0.25), (-0.25, 0.25)), (1, -1), (1, -1)):
+        val = sum(prob[x, y] * weights[a, b, x, y] * abs(np.vdot(np.kron(bvec(a, al[x], sa), bvec(b, be[y], sb)), psi)) ** 2
+                  for x, y, a, b in itertools.product(range(2), range(2), range(dd), range(dd)))
+        best = max(best, float(val))
+    return prob, weights, best, (5 + np.sqrt(11 / 3)) / 8
+
+
+def _run_cglmp(ctx, spec, rng):
+    """A known value on a non-standard instance: levels 1 and 1+ab are not tight for CGLMP-3, the level with all words of two of Alice's and one of
+    Bob's operators is.  A bound that is slightly looser than the level asked for (a dropped word class, a mis-read level string) still satisfies every
+    ordering; only the exact value shows it.  The same level in its three spellings (the library's tests write 'baa') and on the relabelled game."""
+    from toqito.nonlocal_games.extended_nonlocal_game import ExtendedNonlocalGame
+
+    r = spec[1]
+    prob, weights, achieved, closed = cglmp3()
+    level = ["1+ab+baa", "1+ab+aab", "1+ab+aba"][r % 3]
+    if r >= 3:  # the two players exchanged: all words of one of Alice's and two of Bob's operators
+        weights = weights.transpose(1, 0, 3, 2)
+        prob = prob.T
+        level = ["1+ab+abb", "1+ab+bba", "1+ab+bab"][r % 3]
+    pred = np.zeros((1, 1, 3, 3, 2, 2))
+    pred[0, 0] = weights
+    game = ctx.call(ExtendedNonlocalGame, prob.copy(), pred.copy())
+    if game is FAILED:
+        return
+    ctx.check("O2:cglmp-anchor", abs(achieved - closed) <= 1e-6, sig=("self-check",), nt=False, mech="harness:cglmp-strategy", detail={"achieved": achieved, "closed": closed})
+    v = _solve(ctx, game.commuting_measurement_value_upper_bound, level)
+    if v is None:
+        return
+    det = {"level": level, "bound": v, "explicit_strategy": achieved, "closed_form": closed, "players_exchanged": r >= 3}
+    ctx.check("O2:qlb<=NPA", achieved <= v + TOL, dev=max(0.0, achieved - v), tol=TOL, sig=("cglmp3", level), nt=True, mech="ext-npa:below-quantum-lower-bound", detail=det)
+    ctx.check("O2:cglmp-anchor", None, dev=abs(v - closed), tol=5e-4, sig=("cglmp3", level), nt=True, mech="ext-npa:intermediate-level-looser-than-its-known-value", detail=det)
+    ctx.sample("O2:cglmp-anchor", det)
 
 
 def _run_ext(ctx, spec, rng):
